@@ -102,6 +102,16 @@ func c16CheckEncoded(r *vhlib.Run, payload []byte, mode meta.FinalMode, parts []
 	// correspondence: byte-for-byte output
 	r.Case("menc", []string{fmt.Sprint(int(mode)), vhlib.Hex(payload)}, "ok "+vhlib.Hex(enc))
 
+	// oracle: one Write of the whole payload gives the same bytes
+	{
+		enc1, inOff, outOff, err1 := metaEncodeRaw([][]byte{payload}, mode)
+		if err1 != nil || !bytes.Equal(enc, enc1) {
+			r.Violate("split-dependent", fmt.Sprintf("single Write of %d bytes: err=%v, %d vs %d output bytes", len(payload), err1, len(enc1), len(enc)), replay)
+		}
+		if err1 == nil && (inOff != int64(len(payload)) || outOff != int64(len(enc1))) {
+			r.Violate("writer-offsets", fmt.Sprintf("in=%d out=%d", inOff, outOff), replay)
+		}
+	}
 	// oracle: split independence
 	if parts != nil {
 		enc2, inOff, outOff, err2 := metaEncodeRaw(parts, mode)
@@ -261,6 +271,26 @@ func runC16(r *vhlib.Run) {
 			}
 		}
 		enc(p, modes[rng.Intn(3)], vhlib.Partition(rng, p), "weighted")
+	}
+	// 3b. payloads of 20..31 bytes around the single-block capacity: bit weights of
+	// 25-40% (either polarity), where 23 bytes may or may not fit one block
+	nedge := 400
+	if !r.Quick() {
+		nedge = 20000
+	}
+	for i := 0; i < nedge; i++ {
+		n := 20 + rng.Intn(12)
+		p := make([]byte, n)
+		ones := (8 * n) * (25 + rng.Intn(16)) / 100
+		for _, pos := range rng.Perm(8 * n)[:ones] {
+			p[pos/8] |= 1 << uint(pos%8)
+		}
+		if rng.Intn(2) == 0 {
+			for j := range p {
+				p[j] = ^p[j]
+			}
+		}
+		enc(p, modes[rng.Intn(3)], vhlib.Partition(rng, p), "capacity-edge")
 	}
 	// 4. XFLATE footers: "XF\0" + uvarint(backSize)
 	var sizes []uint64
